@@ -1090,6 +1090,17 @@ func init() {
 	// encoding/json of whole messages: identity token (what JSON loses is outside the claims that use it)
 	externals["encoding/json.Marshal"] = ext۰proto۰Marshal
 	externals["encoding/json.Unmarshal"] = ext۰proto۰Unmarshal
+	// randomness and unique ids: environment stubs
+	externals["math/rand.Seed"] = extNoop
+	externals["math/rand.NewSource"] = extNoop
+	externals["math/rand.Intn"] = func(fr *frame, a []value) value { return 0 }
+	externals["math/rand.Int"] = func(fr *frame, a []value) value { return 0 }
+	externals["(time.Time).UTC"] = func(fr *frame, a []value) value { return a[0] }
+	externals["github.com/bmeg/grip/util.UUID"] = func(fr *frame, a []value) value {
+		st := fr.i.st
+		st.clock++
+		return fmt.Sprintf("uuid-%d", st.clock)
+	}
 	externals["(*sync.Map).Store"] = ext۰syncMap۰Store
 	externals["(*sync.Map).Load"] = ext۰syncMap۰Load
 	externals["(*sync.Map).Delete"] = ext۰syncMap۰Delete
